@@ -25,6 +25,12 @@ CLAIMED = {
     "C17": ("exploration", "property-based round-trip testing of byte encodings with cross-proving between original and restored circuits",
             "Generated circuits over the default serializer registries (20 generator kinds, 15 gate kinds observed, incl. lookups and blinding): proofs, compressed proofs, CircuitData, Prover/Verifier/Common/VerifierOnly data round-trip, re-encode byte-identically, keep their digest, and original/restored circuits accept each other's fresh proofs with the reference public inputs.",
             "Poseidon config only (default generator serializer needs an algebraic hasher). Recursion-only generators are added with the recursion checks.", "§C17"),
+    "C06": ("exploration", "differential property testing: native verifier vs. in-circuit verifier (library assignment + witness generation + O-sat), over generated inner circuits and tampered / false / badly ground inner proofs",
+            "For each generated inner circuit an outer recursive-verifier circuit (Poseidon or Keccak outer config) is built; honest inner proofs must be accepted, provable and re-expose the inner public inputs; inner proofs edited in every component class, a false statement emitted by the real prover, an overridden grinding witness and a wrong verifier digest must get the same verdict from the native verifier and from the outer circuit. On a sample of rejected cases the real outer prover is run and its proof must not verify.",
+            "Circuit-side verdict = assignment and witness generation succeed and the satisfaction oracle (gate rows via eval_unfiltered, copy classes) is clean.", "§C06"),
+    "C20": ("exploration", "differential property testing of conditional verification (native validity of the selected pair vs. circuit verdict over all branch-state combinations), dummy circuits/proofs for generated shapes, model-checked cyclic chains with embedded-data edits",
+            "Generated inner circuit + its library-made dummy circuit share common data; for generated (condition, state of branch 0, state of branch 1) combinations the outer conditional verifier must accept exactly when the selected pair is natively valid, irrespective of the other branch; dummy proofs verify; cyclic chains (length 1-2 quick, up to 4 thorough) verify at every step, carry the circuit's verifier data and the reference hash chain, and every edit of the embedded data is detected and cannot be extended.",
+            "Poseidon config; non-zk, lookup-free inner shapes (documented preconditions of dummy_circuit).", "§C20"),
     "C08": ("fault_enumeration", "property-based testing of lookup circuits: generated tables and lookup multisets around the slot boundaries (positive), post-lookup witness overrides of pairs / table cells / multiplicities / padding with the real prover (negative)",
             "Generated circuits with 1-3 tables and lookup counts around the slot count prove, verify and output the table values; then one looked-up output, table cell, multiplicity or padding slot is overridden after the prover filled the lookup wires and the real prover is run (honest path, zero/scaled Z, perturbed quotient): no plain or compressed proof may verify; a non-member input must not yield an accepted proof.",
             "Tables up to a few rows' worth of 16-bit pairs; distinct table inputs and used tables as the API requires.", "§C08"),
